@@ -128,4 +128,157 @@ Section EX.
       exists l'. split; [exact E'|]. split; [exact OK'|].
       cbn [map snd]. rewrite <- app_assoc in HS'. exact HS'.
   Qed.
+
+  (* the inode numbers that occur as entries of a node / of the first [done] nodes *)
+  Definition kids (n : fnode) : list N := match fn_payload n with PDir _ ch => map snd ch | _ => [] end.
+  Definition kids_upto (t : fstree) (done : nat) : list N := flat_map kids (firstn done t).
+
+  Definition EI (t : fstree) (done : nat) (st : sstate) : Prop :=
+    length (s_refs st) = done /\
+    exists l, dw_export (s_dw st) = Some l /\ exp_ok (s_refs st) l /\ exp_has (s_refs st) l (kids_upto t done).
+
+  Lemma firstn_S_nth {A} (l : list A) j x : nth_error l j = Some x -> firstn (S j) l = firstn j l ++ [x].
+  Proof.
+    revert j. induction l as [|y l IH]; intros j H; [destruct j; discriminate|].
+    destruct j as [|j]; cbn [nth_error] in H; [injection H as <-; reflexivity|].
+    cbn [firstn]. rewrite (IH j H). reflexivity.
+  Qed.
+
+  Lemma kids_upto_S t j n : nth_error t j = Some n -> kids_upto t (S j) = kids_upto t j ++ kids n.
+  Proof.
+    intro H. unfold kids_upto. rewrite (firstn_S_nth _ _ _ H), flat_map_app. cbn [flat_map]. rewrite app_nil_r.
+    reflexivity.
+  Qed.
+
+  Lemma kids_range t j : children_before t -> (j <= length t)%nat ->
+    Forall (fun c => 1 <= c /\ c <= N.of_nat j) (kids_upto t j).
+  Proof.
+    intros CB. induction j as [|j IH]; intro Hj; [constructor|].
+    destruct (nth_error t j) as [n|] eqn:E; [|apply nth_error_None in E; lia].
+    rewrite (kids_upto_S _ _ _ E). apply Forall_app. split.
+    - eapply Forall_impl; [|apply IH; lia]. intros c [A B]. split; [exact A|lia].
+    - unfold kids. destruct (fn_payload n) as [par ch| | | |] eqn:P; try constructor.
+      pose proof (CB j n par ch E P) as Q. apply Forall_forall. intros c Hc. apply in_map_iff in Hc.
+      destruct Hc as (e & <- & He). rewrite Forall_forall in Q. destruct (Q e He). split; [assumption|lia].
+  Qed.
+
+  Lemma write_dir_export t refs w par ch w' k l cs :
+    write_dir_entries compress t refs w par ch = Ok (w', k) -> dw_export w = Some l ->
+    Forall (fun e => 1 <= snd e /\ snd e <= nlen refs) ch -> exp_ok refs l -> exp_has refs l cs ->
+    exists l', dw_export w' = Some l' /\ exp_ok refs l' /\ exp_has refs l' (cs ++ map snd ch).
+  Proof.
+    unfold write_dir_entries. intros H E F OK HS.
+    destruct (add_children t refs (dw_begin w) ch) as [w1| | |] eqn:A; try discriminate. cbn [bind] in H.
+    destruct (lift (dw_end compress w1)) as [w2| | |] eqn:D; try discriminate. cbn [bind] in H.
+    injection H as <- _.
+    assert (E0 : dw_export (dw_begin w) = Some l) by exact E.
+    destruct (add_children_export t refs ch _ _ _ cs A E0 F OK HS) as (l' & E1 & OK' & HS').
+    exists l'. split; [|split; assumption].
+    apply lift_ok in D. unfold dw_end in D.
+    destruct (dw_end_loop compress (S (length (dw_list w1))) (dw_dm w1) (dw_size w1) (dw_idx w1) (dw_list w1))
+      as [[[dm size] idx]|e|]; try discriminate.
+    injection D as <-. exact E1.
+  Qed.
+
+  Lemma ser_node_export t st n st' j :
+    children_before t -> nth_error t j = Some n ->
+    ser_node compress limit t st (N.of_nat j + 1) n = Ok st' -> EI t j st -> EI t (S j) st'.
+  Proof.
+    intros CB Hn H (Lr & l & E & OK & HS).
+    assert (Hj : (S j <= length t)%nat) by (apply Nat.lt_le_incl, le_n_S; apply Nat.lt_succ_r; apply Nat.lt_succ_r;
+                                             apply Nat.lt_le_incl; apply Nat.lt_succ_r; apply le_n_S; apply nth_error_Some; congruence).
+    assert (KR : Forall (fun c => 1 <= c /\ c <= nlen (s_refs st)) (kids_upto t (S j))).
+    { eapply Forall_impl; [|apply (kids_range t (S j) CB Hj)]. intros c [A B]. split; [exact A|].
+      rewrite (kids_upto_S _ _ _ Hn) in *. unfold nlen. rewrite Lr. lia. }
+    unfold ser_node in H.
+    destruct (negb (N.land (fn_mode n) c_S_IFMT =? payload_fmt (fn_payload n))); [discriminate|].
+    assert (G : exists w' kind, (match fn_payload n with
+              | PDir par ch => match write_dir_entries compress t (s_refs st) (s_dw st) par ch with
+                               | Err _ => Err c_SQFS_ERROR_INTERNAL | r => r end
+              | PFile b => Ok (s_dw st, KFile b) | PSlink tg => Ok (s_dw st, KSlink tg)
+              | PDev c d => Ok (s_dw st, KDev c d) | PIpc s => Ok (s_dw st, KIpc s) end) = Ok (w', kind) /\
+              exists ids' ref i im', st' = mkS im' w' ids' (s_refs st ++ [ref]) (s_nodes st ++ [mkNode (fn_mode n) (fn_uid n) (fn_gid n) (fn_mtime n) (N.of_nat j + 1) (fn_nlink n) (fn_xattr n) kind]) (s_inodes st ++ [i])).
+    { match type of H with bind ?r _ = _ => destruct r as [[w' kind]| | |]; try discriminate end.
+      cbn [bind] in H. exists w', kind. split; [reflexivity|].
+      match type of H with context [serialize limit (s_ids st) ?tn] =>
+        destruct (serialize limit (s_ids st) tn) as [[ids' i]| | |]; try discriminate end.
+      cbn [bind] in H. destruct (mw_position (s_im st)) as [block offset].
+      destruct (encode i); try discriminate. cbn [bind] in H.
+      match type of H with bind ?r _ = _ => destruct r as [im'| | |]; try discriminate end.
+      cbn [bind] in H. injection H as <-. eauto. }
+    destruct G as (w' & kind & G & ids' & ref & i & im' & ->).
+    unfold EI. cbn [s_refs s_dw]. split; [rewrite app_length, Lr; cbn [length]; lia|].
+    rewrite (kids_upto_S _ _ _ Hn). unfold kids.
+    destruct (fn_payload n) as [par ch|b|tg|c d|s] eqn:P.
+    - destruct (write_dir_entries compress t (s_refs st) (s_dw st) par ch) as [[w2 k2]| | |] eqn:W; try discriminate.
+      injection G as <- _.
+      assert (F : Forall (fun e => 1 <= snd e /\ snd e <= nlen (s_refs st)) ch).
+      { pose proof (CB j n par ch Hn P) as Q. eapply Forall_impl; [|exact Q]. intros e [A B]. split; [exact A|].
+        unfold nlen. rewrite Lr. exact B. }
+      destruct (write_dir_export _ _ _ _ _ _ _ _ _ W E F OK HS) as (l' & E' & OK' & HS').
+      exists l'. split; [exact E'|]. split; [apply exp_ok_grow; exact OK'|].
+      apply exp_has_grow; [|exact HS'].
+      rewrite (kids_upto_S _ _ _ Hn) in KR. unfold kids in KR. rewrite P in KR. exact KR.
+    - injection G as <- _. exists l. rewrite app_nil_r. split; [exact E|]. split; [apply exp_ok_grow; exact OK|].
+      apply exp_has_grow; [|exact HS]. rewrite (kids_upto_S _ _ _ Hn) in KR. unfold kids in KR. rewrite P, app_nil_r in KR. exact KR.
+    - injection G as <- _. exists l. rewrite app_nil_r. split; [exact E|]. split; [apply exp_ok_grow; exact OK|].
+      apply exp_has_grow; [|exact HS]. rewrite (kids_upto_S _ _ _ Hn) in KR. unfold kids in KR. rewrite P, app_nil_r in KR. exact KR.
+    - injection G as <- _. exists l. rewrite app_nil_r. split; [exact E|]. split; [apply exp_ok_grow; exact OK|].
+      apply exp_has_grow; [|exact HS]. rewrite (kids_upto_S _ _ _ Hn) in KR. unfold kids in KR. rewrite P, app_nil_r in KR. exact KR.
+    - injection G as <- _. exists l. rewrite app_nil_r. split; [exact E|]. split; [apply exp_ok_grow; exact OK|].
+      apply exp_has_grow; [|exact HS]. rewrite (kids_upto_S _ _ _ Hn) in KR. unfold kids in KR. rewrite P, app_nil_r in KR. exact KR.
+  Qed.
+
+  Lemma ser_loop_export t : children_before t -> forall l done st st',
+    t = done ++ l -> ser_loop compress limit t st (N.of_nat (length done) + 1) l = Ok st' ->
+    EI t (length done) st -> EI t (length t) st'.
+  Proof.
+    intro CB. induction l as [|n r IH]; intros done st st' Ht H I.
+    - injection H as <-. rewrite Ht, app_nil_r. exact I.
+    - cbn [ser_loop] in H.
+      destruct (ser_node compress limit t st (N.of_nat (length done) + 1) n) as [st1| | |] eqn:E; try discriminate.
+      cbn [bind] in H.
+      assert (Hn : nth_error t (length done) = Some n).
+      { rewrite Ht, nth_error_app2 by lia. rewrite Nat.sub_diag. reflexivity. }
+      pose proof (ser_node_export t st n st1 (length done) CB Hn E I) as I1.
+      apply (IH (done ++ [n]) st1 st').
+      + rewrite Ht, <- app_assoc. reflexivity.
+      + rewrite app_length. cbn [length]. replace (N.of_nat (length done + 1) + 1) with (N.of_nat (length done) + 1 + 1) by lia.
+        exact H.
+      + rewrite app_length. cbn [length]. replace (length done + 1)%nat with (S (length done)) by lia. exact I1.
+  Qed.
+
+  (* the table after sqfs_serialize_fstree, and after sqfs_dir_writer_write_export_table added the root *)
+  Theorem export_table_l t img dwr :
+    children_before t -> (1 <= length t)%nat ->
+    serialize_fstree_x compress limit true t = Ok (img, dwr) ->
+    exists l, export_add (dw_export dwr) (nlen t) (si_root img) = Common.Ok (Some l) /\
+      lenN l = nlen t /\ length (si_refs img) = length t /\
+      (forall k, nth k l U64MAX = ref_of (si_refs img) (N.of_nat k + 1) \/ nth k l U64MAX = U64MAX) /\
+      (forall c, c = nlen t \/ In c (kids_upto t (length t)) ->
+                 nth (N.to_nat (c - 1)) l U64MAX = ref_of (si_refs img) c).
+  Proof.
+    intros CB T1 H. unfold serialize_fstree_x in H.
+    destruct (ser_loop compress limit t (st_init_x true) 1 t) as [st| | |] eqn:L; try discriminate. cbn [bind] in H.
+    destruct (lift (mw_flush compress (s_im st))) as [im1| | |]; try discriminate. cbn [bind] in H.
+    destruct (lift (mw_flush compress (dw_dm (s_dw st)))) as [dm1| | |]; try discriminate. cbn [bind] in H.
+    injection H as <- <-. cbn [si_root si_refs].
+    assert (I0 : EI t (length (@nil fnode)) (st_init_x true)).
+    { unfold EI, st_init_x, dw_create. cbn [s_refs s_dw dw_export length]. split; [reflexivity|].
+      exists []. split; [reflexivity|]. split.
+      - split; [unfold lenN, nlen; cbn; lia|]. intro k. right. destruct k; reflexivity.
+      - intros c []. }
+    destruct (ser_loop_export t CB t [] _ st eq_refl L I0) as (Lr & l & E & (OL & OK) & HS).
+    destruct (export_add (Some l) (nlen t) (ref_of (s_refs st) (nlen t))) as [[l'|]|e|] eqn:X.
+    - destruct (export_add_nth _ _ _ _ X) as (_ & L1 & N1).
+      exists l'. rewrite E. split; [exact X|]. split; [unfold nlen in *; lia|]. split; [exact Lr|]. split.
+      + intro k. rewrite N1. destruct (N.eqb_spec (N.of_nat k) (nlen t - 1)) as [Q|Q]; [left; f_equal; unfold nlen in *; lia|apply OK].
+      + intros c [->|Hc]; rewrite N1.
+        * rewrite N2Nat.id, N.eqb_refl. reflexivity.
+        * destruct (N.eqb_spec (N.of_nat (N.to_nat (c - 1))) (nlen t - 1)) as [Q|Q]; [unfold ref_of; f_equal; lia|].
+          apply HS. exact Hc.
+    - exfalso. unfold export_add in X. destruct (nlen t <? 1); discriminate.
+    - exfalso. unfold export_add in X. destruct (nlen t <? 1) eqn:Q; [|discriminate]. apply N.ltb_lt in Q. unfold nlen in Q. lia.
+    - exfalso. unfold export_add in X. destruct (nlen t <? 1); discriminate.
+  Qed.
 End EX.
